@@ -70,12 +70,16 @@ Section Sign.
 
   (* IntegrityBlockSigner.SignAndAddNewSignature *)
   Definition sign_and_add (hash : bytes) (b : iblock) (pk : bytes) (a : attrs) : R iblock :=
+    (* the attributes must carry the key the signature is verified with *)
+    if negb (bytes_eqb (match find (fun kv => bytes_eqb (fst kv) pk_attr_name) a with
+                        | Some kv => snd kv | None => [] end) pk) then Err else
     let* blk := block_cbor b in
     if negb (det_accepts blk) then Err
     else
       let* dtbs := data_to_be_signed hash blk a in
       let* sg := strat_sign dtbs in
-      if negb (ed_ok pk dtbs sg) then Err
+      if negb (lenN pk =? 32) then Err                 (* VerifyEd25519Signature: key length *)
+      else if negb (ed_ok pk dtbs sg) then Err
       else Ok {| ib_stack := {| is_attrs := a; is_sig := sg |} :: ib_stack b |}.
 
   (* SignWithIntegrityBlock: the bytes written to the output file *)
